@@ -87,7 +87,7 @@ inductive Verdict where
   | ok
   | notCycle (i : Nat)      -- index of the first member that is not a simple cycle of existing bonds
   | dependent
-  | count (have want : Int)
+  | count (got want : Int)
   | noComponents            -- component computation ran out of fuel (never on well-formed input)
   deriving Repr, DecidableEq
 
